@@ -87,6 +87,18 @@ func checkC08(c *Ctx, r *Report) {
 	r.rule("C08.R4", "truncateRecordBatchToTimestamp patches exactly {8:12,23:27,35:43,57:61,17:21}; the CRC patch is last and covers truncated[21:] of the same slice", 2)
 	r.rule("C08.R5", "the batch scanner reports 'finished' only after a record (or a batch's first timestamp) later than the cutoff was seen", 1)
 	checkC08Done(m, r)
+	r.rule("C08.R7", "the record scan that places the cut decodes signed varints correctly: every zigzag decode reachable from RecoverTopicToTimestamp builds an all-ones sign mask (a record stamped earlier than its batch's first timestamp has a negative delta)", 1)
+	r.Explanation += " (R7) every zigzag varint decode reachable from RecoverTopicToTimestamp (call graph) builds its sign mask by negation or an arithmetic shift at full width, so negative timestamp deltas are not read as later than the cutoff."
+	if rt := needFn(m, r, "C08.R7", pkgStorage, "RecoverTopicToTimestamp"); rt != nil {
+		var fns []*ssa.Function
+		for f := range reachFrom(m, []*ssa.Function{rt}) {
+			fns = append(fns, f)
+		}
+		sort.Slice(fns, func(i, j int) bool { return funcName(fns[i]) < funcName(fns[j]) })
+		if checkZigzagMasks(m, r, "C08.R7", fns) == 0 {
+			r.unresolved("C08.R7", "zigzag decoders on the restore path", "none reachable from RecoverTopicToTimestamp")
+		}
+	}
 	r.rule("C08.R6", "the last candidate segment is always rebuilt from the scan: every plan buildRestorePlan returns carries bytes produced by BuildSegment over collectRecoverableBatches' result, never the source segment's own bytes", 2)
 	if bp := needFn(m, r, "C08.R6", pkgStorage, "buildRestorePlan"); bp != nil {
 		n := 0
